@@ -59,6 +59,7 @@ package corebgp
 //@   ensures [not_started] !peerRunning(p) && !chanClosed(p.closeCh) && !chanClosed(p.doneCh) && !onceDone(p.closeOnce)
 
 //@ func Server.AddPeer (s, config, plugin, opts) returns (err)
+//@   at call start#0 assert [started_before_the_registry_lock_is_released] locked(s.mu)
 //@   local ErrPeerAlreadyExists #1 error
 //@   ghostvar nLock int = 0
 //@   at call Lock set nLock = nLock + 1
@@ -80,6 +81,7 @@ package corebgp
 //@   ensures [started_iff_serving] err == nil ==> peerRunning(s.peers[key]) == s.serving
 
 //@ func Server.DeletePeer (s, ip) returns (err)
+//@   at call stop#0 assert [stopped_before_the_registry_lock_is_released] locked(s.mu)
 //@   local ErrPeerNotExist #0 error
 //@   ghostvar nLock int = 0
 //@   at call Lock set nLock = nLock + 1
@@ -130,6 +132,7 @@ package corebgp
 // Serve's deferred function: stop (and join) every registered peer under the lock.
 //@ func Server.Serve$1 ()
 //@   local s #0 *Server
+//@   at call stop#0 assert [stopped_before_the_registry_lock_is_released] locked(s.mu)
 //@   loop#0 invariant [stopping] 0 <= rangepos && rangepos <= rangelen && locked(s.mu) && s.doneServingCh != nil && !chanClosed(s.doneServingCh) && stoppablePeers(s) && (forall j :: 0 <= j && j < rangepos ==> !peerRunning(s.peers[rangekey(j)]))
 //@   at call close#0 assert [every_peer_joined_before_serving_is_declared_over] (forall j :: 0 <= j && j < rangelen ==> !peerRunning(s.peers[rangekey(j)]))
 
@@ -156,6 +159,8 @@ package corebgp
 //@   ghostvar refused bool = false
 //@   at select#0 case 0 set refused = true
 //@   at select#0 case 1 set refused = true
+//@   at return#3 assert [accept_loops_released_on_every_exit] chanClosed(closingListeners)
+//@   at return#4 assert [accept_loops_released_on_every_exit] chanClosed(closingListeners)
 //@   at call start#0 assert [starts_registered_peer_under_lock] locked(s.mu) && s.serving && has(s.peers, rangekey(rangepos - 1)) && arg0 == s.peers[rangekey(rangepos - 1)]
 //@   loop#0 invariant [starting] locked(s.mu) && s.serving && !refused && 0 <= rangepos && rangepos <= rangelen && !chanClosed(s.doneServingCh) && (forall k :: rangepos <= k && k < rangelen ==> peerStartable(s.peers[rangekey(k)])) && stoppablePeers(s)
 //@   loop#1 invariant [listening] !locked(s.mu) && !refused && !chanClosed(s.doneServingCh) && -1 <= rangeindex && rangeindex + 1 <= len(listeners) && stoppablePeers(s)
